@@ -5,11 +5,25 @@ parsers `sinex_site`, `sinex_discontinuities`, `sinex_events`, `sinex_tro`, `sin
 Fully table driven: the `FieldDef`/`BlockDef` tables are regenerated from the source
 (`Generated/SinexBlocks.lean`); this file says what the code *does* with such a table.
 
-`np.genfromtxt(lines, delimiter=widths, autostrip=True, usecols=…, converters=…, dtype=…)` is
-modelled (trusted, validated by the correspondence) as: slice every line
-at the cumulative widths, strip each piece, apply converter / dtype conversion, where a
-`ValueError` of the conversion yields the column default (`None`, `nan`, `-1`) — NumPy's
-`StringConverter._loose_call`.
+`np.genfromtxt(lines, delimiter=widths, autostrip=True, usecols=…, converters=…, dtype=…,
+comments=None)` is modelled, not verified.  What the model assumes of it (each item is probed against
+the real function in every run of `./check C14`, see `harness/c14_tms.py` `GFT`):
+
+* G1  `delimiter = diff([0] + starts + [total])` cuts `line[s_i : s_{i+1}]`, the last field `line[s_last : total]`;
+      the 0th piece is dropped (`usecols`)                                   — `layoutOf`, `cutLine`
+* G2  a line that ends before a field starts gives the empty text there; nothing shifts
+* G3  characters at or beyond `total` are ignored
+* G4  `autostrip`: every piece loses leading/trailing ASCII whitespace, inner whitespace stays — `FixedCol.slice`
+* G5  `comments=None`: `#` is an ordinary character                          — `dropComment`
+* G6  the empty text: `U` ↦ `''`, `i8` ↦ −1, `f8` ↦ nan, converter ↦ its `ValueError` ↦ `None`/nan
+* G7  a conversion raising `ValueError` gives the column default (`StringConverter._loose_call`); nothing is raised
+* G8  `Uk` keeps the first `k` characters                                    — `convertCell`
+* G9  `i8` is `int(text)`, `f8` is `float(text)` (decimal literals; inf/nan/`_`/hex numerals are outside the model)
+* G10 one record per non-empty line, in order; no line: an empty array       — `parseLines`
+* G11 names go through `NameValidator`                                       — `validName`
+* G12 (`sinex_tms`) `total` < last start: the last field is empty, the others unaffected
+* W1–W4 (`sinex_tms`, `delimiter=None, dtype=None`): cut at whitespace runs, token-less lines skipped, a line with
+      another number of tokens raises, non-numeric columns stay text and decimal tokens read as `float(token)` — `wsRows`
 -/
 import Midgard.Core.Text
 import Midgard.Core.Decimal
